@@ -45,6 +45,8 @@ impl TraitFnAnalyzer<'_> {
         analyzer: &mut GenericsAnalyzer,
     ) -> syn::Result<TraitFn> {
         let deps = analyzer.analyze_fn_deps(input_sig, self.opts)?;
+        #[cfg(entrait_verif)]
+        crate::verif::point("analyze_generics::deps_analyzed", 0);
         let entrait_sig = SignatureConverter {
             crate_idents: self.crate_idents,
             trait_span: self.trait_span,
